@@ -100,21 +100,72 @@ package scan
 //@       result.step == opts.Step.Milliseconds() && result.currentStep == opts.Start.UnixMilli() &&
 //@       result.numSteps == stepsOf(opts) && result.val == val && result.vectorPool == pool && result.once == 0
 
-// selectPoints (C03, C19): the points handed to a range function never contain a staleness marker
-// and lie inside the window; storage failures surface (C15).
+// selectPoints (C03, C07, C19): the points handed to a range function are EXACTLY the non-stale
+// samples of the series inside the window [mint, maxt], in order - independent of what earlier steps
+// consumed: the points carried over from the previous (older) window plus the buffered samples make
+// up the full window, provided the buffer reaches back far enough (precondition buffer-covers-the-gap,
+// discharged at the call site in matrixSelector.Next for every relation of range and step).
+// Ghost state kept with the iterator describes the window points stored for it: point p of the
+// window is sample pidx[poff+p] of the series; [wlo, whi] is the window they were selected for.
+// Completeness is stated without existentials: no non-stale in-window sample before the first point,
+// between two consecutive points, or after the last one.
+//@ ghost *promstorage.BufferedSeriesIterator pidx seqint
+//@ ghost *promstorage.BufferedSeriesIterator wlo int
+//@ ghost *promstorage.BufferedSeriesIterator whi int
+//@ pred winSound(s, it) = forall p in 0..len(s) :: 0 <= it.pidx[p] && it.pidx[p] < it.bn && s[p].T == it.bT[it.pidx[p]] && s[p].V == it.bV[it.pidx[p]]
+//@ pred winInc(s, it) = forall p in 0..len(s) :: forall q in p+1..len(s) :: it.pidx[p] < it.pidx[q] && s[p].T < s[q].T
+//@ pred winIn(s, a, b) = forall p in 0..len(s) :: a <= s[p].T && s[p].T <= b && !isstale(s[p].V)
+//@ pred gapHead(s, it, a) = len(s) > 0 ==> forall j in 0..it.pidx[0] :: it.bT[j] < a || isstale(it.bV[j])
+//@ pred gapMid(s, it) = forall p in 1..len(s) :: forall j in it.pidx[p-1]+1..it.pidx[p] :: isstale(it.bV[j])
+//@ pred gapTail(s, it, upto, b) = len(s) > 0 ==> forall j in it.pidx[len(s)-1]+1..upto :: it.bT[j] > b || isstale(it.bV[j])
+//@ pred gapNone(s, it, upto, a, b) = len(s) == 0 ==> forall j in 0..upto :: it.bT[j] < a || it.bT[j] > b || isstale(it.bV[j])
+//@ pred winOK(s, it, a, b) = winSound(s, it) && winInc(s, it) && winIn(s, a, b) && gapHead(s, it, a) && gapMid(s, it) && gapTail(s, it, it.bn, b) && gapNone(s, it, it.bn, a, b)
 //@ func selectPoints
 //@   requires it != nil && mint <= maxt
 //@   requires buf_inv(it.bn, it.bT, it.bcur, it.blo, it.blastSeek, it.bdelta) && maxt >= it.blastSeek
-//@   requires previous-window-clean: forall p in 0..len(out) :: !isstale(out[p].V) && out[p].T <= maxt
-//@   requires previous-window-sorted: forall p in 0..len(out) :: forall q in p+1..len(out) :: out[p].T < out[q].T
+//@   requires[C03,C07] carried-points-are-the-previous-window: len(out) > 0 ==> winOK(out, it, it.wlo, it.whi) && it.wlo <= mint && it.whi < maxt
+//@   requires[C03,C07] buffer-covers-the-gap: maxt - it.bdelta <= ite(len(out) > 0 && out[len(out)-1].T >= mint, it.whi + 1, mint)
+//@   assigns ghost bcur@it, ghost blo@it, ghost blastSeek@it, ghost bfailed@it, ghost pidx@it, ghost wlo@it, ghost whi@it, elems(github.com/prometheus/prometheus/promql.Point)
+//@   ghostvar m0 int = mint
+//@   at line "copy(out, out[drop:])" set it.pidx = shiftseq(it.pidx, drop)
+//@   at line "if t >= mint {" set it.pidx = store(it.pidx, len(out), buf.rcur)
+//@   at line "if t == maxt && !value.IsStaleNaN(v) {" set it.pidx = store(it.pidx, len(out), it.bcur)
+//@   at line "return out, nil" set it.wlo = m0
+//@   at line "return out, nil" set it.whi = maxt
 //@   ensures[C15] storage-error-surfaces: it.bfailed ==> result1 != nil
 //@   ensures[C03,C19] no-staleness-marker-in-window: result1 == nil ==> forall p in 0..len(result0) :: !isstale(result0[p].V)
 //@   ensures[C03] points-inside-window: result1 == nil ==> forall p in 0..len(result0) :: old(mint) <= result0[p].T && result0[p].T <= maxt
-//@   loop 0 invariant 0 <= drop && drop < len(out) && (forall p in 0..drop :: out[p].T < mint)
-//@   loop 1 invariant out-not-stale: forall p in 0..len(out) :: !isstale(out[p].V)
-//@   loop 1 invariant out-in-window: forall p in 0..len(out) :: old(mint) <= out[p].T && out[p].T <= maxt
-//@   loop 1 invariant scan-state: buf != nil && buf.rnext >= 0 && mint >= old(mint) && buf.rT == it.bT && buf.rV == it.bV && buf.rend == it.bcur &&
-//@       (forall j in 0..it.bcur :: it.bT[j] < maxt)
+//@   ensures[C03,C07] points-are-series-samples: result1 == nil ==> winSound(result0, it)
+//@   ensures[C03,C07] points-in-series-order: result1 == nil ==> winInc(result0, it)
+//@   ensures[C03,C07] no-window-sample-before-the-first-point: result1 == nil ==> gapHead(result0, it, old(mint))
+//@   ensures[C03,C07] no-window-sample-between-two-points: result1 == nil ==> gapMid(result0, it)
+//@   ensures[C03,C07] no-window-sample-after-the-last-point: result1 == nil ==> gapTail(result0, it, it.bn, maxt)
+//@   ensures[C03,C07] empty-only-if-window-has-no-sample: result1 == nil ==> gapNone(result0, it, it.bn, old(mint), maxt)
+//@   ensures[C03,C07] window-recorded: result1 == nil ==> it.wlo == old(mint) && it.whi == maxt
+//@   loop 0 invariant 0 <= drop && drop < len(out) && (forall p in 0..drop :: out[p].T < mint) && mint == m0
+//@   loop 0 invariant head-so-far: forall j in 0..it.pidx[drop] :: it.bT[j] < mint || isstale(it.bV[j])
+//@   at line "out = out[:len(out)-drop]" assert kept-points-shifted: forall p in 0..len(out)-drop :: 0 <= it.pidx[p] && it.pidx[p] < it.bn &&
+//@       out[p].T == it.bT[it.pidx[p]] && out[p].V == it.bV[it.pidx[p]]
+//@   at line "out = out[:len(out)-drop]" assert kept-points-ordered: forall p in 0..len(out)-drop :: forall q in p+1..len(out)-drop :: it.pidx[p] < it.pidx[q] && out[p].T < out[q].T
+//@   at line "mint = out[len(out)-1].T + 1" assert kept-sound: winSound(out, it)
+//@   at line "mint = out[len(out)-1].T + 1" assert kept-increasing: winInc(out, it)
+//@   at line "mint = out[len(out)-1].T + 1" assert kept-in-window: winIn(out, mint, it.whi)
+//@   at line "mint = out[len(out)-1].T + 1" assert kept-head: gapHead(out, it, mint)
+//@   at line "mint = out[len(out)-1].T + 1" assert kept-mid: gapMid(out, it)
+//@   at line "mint = out[len(out)-1].T + 1" assert kept-tail: gapTail(out, it, it.bn, it.whi)
+//@   loop 1 invariant scan-state: buf != nil && buf.rnext >= it.blo && buf.rnext <= it.bcur && mint >= m0 && m0 == old(mint) && buf.rT == it.bT && buf.rV == it.bV && buf.rend == it.bcur &&
+//@       it.bcur <= it.bn && sorted_ts(it.bT, it.bn) && (forall j in 0..it.bcur :: it.bT[j] < maxt) && (it.bcur < it.bn ==> it.bT[it.bcur] >= maxt) &&
+//@       (forall j in 0..it.blo :: it.bT[j] < maxt - it.bdelta)
+//@   loop 1 invariant win-sound: winSound(out, it)
+//@   loop 1 invariant win-inc: winInc(out, it)
+//@   loop 1 invariant win-in: winIn(out, m0, maxt)
+//@   loop 1 invariant gap-head: gapHead(out, it, m0)
+//@   loop 1 invariant gap-mid: gapMid(out, it)
+//@   loop 1 invariant gap-tail: len(out) > 0 ==> forall j in it.pidx[len(out)-1]+1..buf.rnext :: isstale(it.bV[j])
+//@   loop 1 invariant gap-none: len(out) == 0 ==> forall j in 0..buf.rnext :: it.bT[j] < m0 || isstale(it.bV[j])
+//@   loop 1 invariant last-before-frontier: len(out) > 0 ==> (it.pidx[len(out)-1] < buf.rnext || out[len(out)-1].T < mint) && out[len(out)-1].T >= mint - 1
+//@   loop 1 invariant empty-means-fresh-window: len(out) == 0 ==> mint == m0
+//@   loop 1 invariant before-the-right-edge: forall p in 0..len(out) :: out[p].T < maxt && it.pidx[p] < it.bcur
 
 // ---- vector_selector.go: vectorSelector.Next (C02, C07, C18) --------------------------------------
 // Object invariant once the series are loaded: one scanner per series, each with its own memoized
